@@ -12,6 +12,7 @@ import os, json, shutil
 from vp_common import *
 import vp_coq, vp_build
 import driver_cases as dc
+import wisdom_cases
 
 USE_MODEL = True
 PHYS_PREFIXES = ("/BunchLength", "/BunchPopulation", "/BunchPosition", "/BunchProfile", "/CSR", "/EnergyAverage",
@@ -177,16 +178,20 @@ def run(ctx):
                 "RenormalizeCharge {<0, 0, k} x outstep {0, 1, coprime with k, multiple of k} on runs of 3k+2 steps; every record of every "
                 "variant compared bit for bit with the reference record of the same step; observer options (verbose, verbose with another "
                 "cadence, renamed output / other extension, tracking, no output steps) x start distribution {built-in, .h5 last record, .h5 chosen "
-                "record, .txt particles - files that do not hold unit charge} x RenormalizeCharge {0, k}; non-trivial = at least one "
+                "record, .txt particles - files that do not hold unit charge} x RenormalizeCharge {0, k}; wisdom: configurations started in an "
+                "EMPTY data directory and run through a history (3 runs, delete / garbage / copy of a wisdom file, directory removed or emptied, "
+                "runs in between): files named in 'Created some wisdom' lines exist, runs 2 and 3 plan nothing and agree bit for bit, every run "
+                "against the extracted wisdom machine over the generated prepareFFT table; non-trivial = at least one "
                 "row compared and the phase space actually changes during the run")
-    coq = vp_coq.full_check("C12", ctx, fams=("driver",))
+    coq = vp_coq.full_check("C12", ctx, fams=("driver", "wisdom"))
     for x in (dc.observer_report() or []):
         ctx.notes.append("observer-guarded statement is not pure (obligation of C12_setup_observers_pure / C12_loop_observers_pure): " + x)
         ctx.log("not pure: " + x)
     tg = ctx.build(harness=("h5cat",), want_binary=True)
     ctx.trusted.add("harness: harness/h5cat.cpp, lib/driver_cases.py, VERIF_POINT hook (inc/VerifHooks.hpp), HDF5/FFTW libraries; "
                     "FFTW wisdom shared through XDG_DATA_HOME")
-    ctx.trusted.add("process-level determinism (FFTW planning, uninitialised memory) is established by the repeated runs only, not by a theorem")
+    ctx.trusted.add("process-level determinism (uninitialised memory; FFTW's planner: that a plan re-created from stored wisdom is the stored plan) is "
+                    "established by the repeated runs only, not by a theorem; the logic that stores and re-uses the wisdom is (C12_wisdom_after_one_run_nothing_is_planned)")
     dis = []
     # decision rule: a broken proof/translation stage does not stop the check - the property oracle still runs on
     # the binary to look for a concrete failing input; only the model comparison is skipped
@@ -258,6 +263,8 @@ def run(ctx):
             check_pair(ctx, tg, base, href, var, wd, points, nsetup, dis, "o%d:" % bi)
             ctx.count("observer:%s:renorm%s" % (kind, "0" if base["renorm"] == 0 else "k"))
             ntr += 1
+    # the wisdom directory as part of the input: data directories Inovesa never used, and what happens to them
+    wisdom_cases.stage(ctx, tg, wd, bool(coq["make_ok"] and coq["extract_ok"] and os.path.exists(vp_coq.model_path("wisdom"))), dis)
     ctx.extra["traces_validated_against_impl"] = ntr
     ctx.extra["correspondence_disagreements"] = len(dis)
     shutil.rmtree(wd, ignore_errors=True)
